@@ -136,7 +136,7 @@ IRRELEVANT_TIES = {
 
 
 # translators whose --ties mode has a --field variant (tie re-proved under the ordered-field laws only)
-FIELD_MODE = set()
+FIELD_MODE = {"gen_brain.py"}
 
 
 TIES_MODE = {"gen_peak.py", "gen_espec.py", "gen_formula.py", "gen_comp.py", "gen_render.py", "gen_cbind.py", "gen_brain.py", "gen_element.py", "gen_props.py"}
